@@ -179,6 +179,9 @@ fn metric(rng: &mut Rng) -> String {
         2 => format!("${{pad-{}}}", pick_s(rng, &["2", "x", "1.5", "12.5", "1.", "a-b", "/2", "é"])),
         3 => format!("${{{}-{}}}", rng.range(1, 30), rng.range(1, 30)),
         6 => format!("${{pad {}b-c}}", pick_s(rng, &["", " ", "#é\n", "# c\n "])),
+        // identifiers with multi-byte characters before an unspaced '-' or '/' (seed C13-1)
+        7 => format!("${{{}{}{}}}", pick_s(rng, &["pé", "a中", "largéur", "x\u{1F600}y", "é", "_ß", "p\u{301}"]),
+                     pick_s(rng, &["-", "/", "--", "-/"]), pick_s(rng, &["2", "b", "é", "1.5", "b-c", ""])),
         4 => "(wght=100:10 wght=900:20)".into(),
         5 => format!("(wght={}:{} wdth=5u:{})", num(rng), num(rng), num(rng)),
         _ => num(rng),
@@ -1471,6 +1474,9 @@ const FIXED: &[&str] = &[
     "feature ss01 { include(inc1.fea);",
     "feature kern { pos a ${a #é\n b-c}; } kern;",
     "feature kern { pos a ${pad -2}; } kern;",
+    "feature kern { pos a ${pé-2}; } kern;",
+    "feature kern { pos a ${a中-b}; } kern;",
+    "feature kern { pos a ${largéur/2}; } kern;",
     "\"unterminated",
     "0x",
     "include(",
